@@ -28,7 +28,11 @@ def main():
             if not r[3].isdigit():
                 mrows.append(f"| {r[0]} | {r[2]} | | | not applied | |")
                 continue
-            how = "obligation + bounded" if int(r[3]) and int(r[4]) else ("obligation only" if int(r[3]) else ("bounded only" if int(r[4]) else "NOT CAUGHT"))
+            guard = any(w in r[6] for w in ("has-returning-path", "within-supported-subset", "vacuity guard", "refusal path exists"))
+            if guard and int(r[4]):
+                how = "bounded (the trace left the modelled subset: guard obligations only)"
+            else:
+                how = "obligation + bounded" if int(r[3]) and int(r[4]) else ("obligation only" if int(r[3]) else ("bounded only" if int(r[4]) else "NOT CAUGHT"))
             mrows.append(f"| {r[0]} | {r[2]} | {r[3]} | {r[4]} | {how} | {r[6].replace('|', '/')[:120]} |")
     mut = "| change | exit | obligation | bounded | caught by | first failing obligation |\n|---|---|---|---|---|---|\n" + "\n".join(mrows)
     d = json.load(open(os.path.join(ROOT, "known_findings.json")))
